@@ -40,7 +40,7 @@ Definition E0 : cenv := {|
    all equal; numeric / path families; otherwise heterogeneous (resources and structs mixed: invalid) *)
 Definition all_sub (ts : list ty) (p : prim) : bool := forallb (fun t => is_sub D0 t (TPrim p)) ts.
 
-Definition lcs0 (ts : list ty) : option ty :=
+Definition lcs_base (ts : list ty) : option ty :=
   match ts with
   | [] => None
   | t :: r =>
@@ -63,6 +63,27 @@ Definition lcs0 (ts : list ty) : option ty :=
         else Some (TPrim PAnyStruct)
   end.
 
+Fixpoint opt_depth (t : ty) : nat := match t with TOpt x => S (opt_depth x) | _ => O end.
+Fixpoint wrap_n (n : nat) (t : ty) : ty := match n with O => t | S m => TOpt (wrap_n m t) end.
+
+(* optional types among the elements: the supertype of the unwrapped types (Never dropped), re-wrapped
+   to the deepest optional level unless it already admits nil (AnyStruct / AnyResource) *)
+Definition lcs0 (ts : list ty) : option ty :=
+  match ts with
+  | [] => None
+  | t :: r =>
+      if forallb (ty_eqb D0 t) r then Some t
+      else if existsb (fun x => match x with TOpt _ => true | _ => false end) ts then
+        let us := filter (fun x => negb (is_prim x PNever)) (map unwrap_opt ts) in
+        match lcs_base us with
+        | None => None
+        | Some u =>
+            if is_prim u PAnyStruct || is_prim u PAnyResource then Some u
+            else Some (wrap_n (fold_right Nat.max O (map opt_depth ts)) u)
+        end
+      else lcs_base ts
+  end.
+
 Inductive obs : Type :=
 | OAccept (t : ty)        (* the script ran; run-time type of the argument it received *)
 | OReject (k : rkind).
@@ -70,7 +91,7 @@ Inductive obs : Type :=
 Definition rkind_eqb (a b : rkind) : bool :=
   match a, b with
   | RDecode, RDecode | RImport, RImport | RNotImportable, RNotImportable
-  | RType, RType | RMalformed, RMalformed | RInternal, RInternal => true
+  | RType, RType | RMalformed, RMalformed | RInternal, RInternal | RCopy, RCopy => true
   | _, _ => false
   end.
 
